@@ -24,6 +24,17 @@ pub struct C04;
 pub struct Case {
     pub sc: Scenario,
     pub env: Env,
+    /// a second learn call on the same network; the *second* call is then the one compared
+    /// (the equivalence must hold from whatever state the first call left behind)
+    #[serde(default)]
+    pub second: Option<Second>,
+}
+
+#[derive(Serialize, Deserialize, Clone, Debug)]
+pub struct Second {
+    pub train: Data,
+    pub batch: usize,
+    pub epochs: i32,
 }
 
 pub struct Trained {
@@ -37,20 +48,25 @@ fn set_training(net: &mut neurons::network::Network, on: bool) {
     }
 }
 
-/// The property's right-hand side, executed literally.
-pub fn reference_trainer(sc: &Scenario, epochs: i32) -> Trained {
-    let mut net = sc.build();
-    let objective = objective::Function::create(sc.net.objective.to_lib(), sc.net.clamp);
-    let xs = tensors(&sc.net, &sc.train.x);
-    let ys = targets(&sc.train.y);
+/// The property's right-hand side, executed literally, on an existing network.
+pub fn reference_epochs(
+    net: &mut neurons::network::Network,
+    net_cfg: &NetCfg,
+    data: &Data,
+    batch: usize,
+    epochs: i32,
+) -> Vec<f32> {
+    let objective = objective::Function::create(net_cfg.objective.to_lib(), net_cfg.clamp);
+    let xs = tensors(net_cfg, &data.x);
+    let ys = targets(&data.y);
     let mut train_loss = Vec::new();
-    set_training(&mut net, true);
+    set_training(net, true);
     for epoch in 1..=epochs {
         let mut loss_epoch = 0.0f32;
         let mut groups = 0usize;
         let mut start = 0usize;
         while start < xs.len() {
-            let end = (start + sc.batch).min(xs.len());
+            let end = (start + batch).min(xs.len());
             let mut sum_w: Vec<tensor::Tensor> = Vec::new();
             let mut sum_b: Vec<Option<tensor::Tensor>> = Vec::new();
             let mut losses: Vec<f32> = Vec::new();
@@ -83,11 +99,25 @@ pub fn reference_trainer(sc: &Scenario, epochs: i32) -> Trained {
         }
         train_loss.push(loss_epoch / groups as f32);
     }
-    set_training(&mut net, false);
+    set_training(net, false);
+    train_loss
+}
+
+pub fn reference_trainer(sc: &Scenario, epochs: i32) -> Trained {
+    let mut net = sc.build();
+    let train_loss = reference_epochs(&mut net, &sc.net, &sc.train, sc.batch, epochs);
     Trained { train_loss, params: parameters(&net) }
 }
 
-fn learn_under_test(sc: &Scenario, ctx: &mut Ctx) -> Trained {
+/// Two consecutive training calls on one network (optimizer state carries over).
+fn reference_two_calls(sc: &Scenario, second: &Second) -> Trained {
+    let mut net = sc.build();
+    let _ = reference_epochs(&mut net, &sc.net, &sc.train, sc.batch, sc.epochs);
+    let train_loss = reference_epochs(&mut net, &sc.net, &second.train, second.batch, second.epochs);
+    Trained { train_loss, params: parameters(&net) }
+}
+
+fn learn_under_test(sc: &Scenario, second: Option<&Second>, ctx: &mut Ctx) -> Trained {
     ctx.op();
     let mut net = sc.build();
     let xs = tensors(&sc.net, &sc.train.x);
@@ -102,7 +132,16 @@ fn learn_under_test(sc: &Scenario, ctx: &mut Ctx) -> Trained {
     let vyr: Vec<&tensor::Tensor> = vy.iter().collect();
     let validation = if sc.val.is_some() { Some((&vxr, &vyr, sc.early_tol)) } else { None };
     ctx.op();
-    let (tl, _, _) = net.learn(&xr, &yr, validation, sc.batch, sc.epochs, sc.print);
+    let (mut tl, _, _) = net.learn(&xr, &yr, validation, sc.batch, sc.epochs, sc.print);
+    if let Some(second) = second {
+        let xs2 = tensors(&sc.net, &second.train.x);
+        let ys2 = targets(&second.train.y);
+        let xr2: Vec<&tensor::Tensor> = xs2.iter().collect();
+        let yr2: Vec<&tensor::Tensor> = ys2.iter().collect();
+        ctx.op();
+        let (tl2, _, _) = net.learn(&xr2, &yr2, None, second.batch, second.epochs, None);
+        tl = tl2;
+    }
     Trained { train_loss: tl, params: parameters(&net) }
 }
 
@@ -143,7 +182,7 @@ impl Property for C04 {
     }
 
     fn required_probes(&self) -> Vec<&'static str> {
-        vec!["batch_gt_1", "last_group_partial", "batch_gt_n", "bitwise_equal", "stateful_optimizer", "with_validation", "dropout_configured"]
+        vec!["batch_gt_1", "last_group_partial", "batch_gt_n", "bitwise_equal", "stateful_optimizer", "with_validation", "dropout_configured", "second_learn_call"]
     }
 
     fn generate(&self, rng: &mut Rng, _tier: Tier) -> Case {
@@ -155,20 +194,30 @@ impl Property for C04 {
             sc.val = Some(gen_data(rng, &sc.net, v));
             sc.early_tol = 1000;
         }
+        let second = if rng.chance(0.2) {
+            let n = rng.range(1, 8);
+            Some(Second { train: gen_data(rng, &sc.net, n), batch: rng.range(1, n + 1), epochs: rng.range(1, 2) as i32 })
+        } else {
+            None
+        };
         let (clock, _) = draw_clock(rng);
         let env = draw_env(rng, clock, true);
-        Case { sc, env }
+        Case { sc, env, second }
     }
 
     fn check(&self, case: &Case, stats: &mut Stats) -> Outcome {
         scenario_probes(&case.sc, stats);
         stats.probe("stateful_optimizer", matches!(case.sc.net.optimizer, Some(OptCfg::SGDM { .. }) | Some(OptCfg::Adam { .. }) | Some(OptCfg::AdamW { .. }) | Some(OptCfg::RMSprop { .. })));
         stats.probe("bitwise_equal", false);
+        stats.probe("second_learn_call", case.second.is_some());
         let mut ref_env = Env::reference(case.env.clock);
         ref_env.hash_seed = case.env.hash_seed;
-        let (expected, info_ref) = run_env(&ref_env, |_| reference_trainer(&case.sc, case.sc.epochs));
+        let (expected, info_ref) = run_env(&ref_env, |_| match &case.second {
+            Some(second) => reference_two_calls(&case.sc, second),
+            None => reference_trainer(&case.sc, case.sc.epochs),
+        });
         stats.execution(&ref_env, &info_ref);
-        let (got, info) = run_env(&case.env, |ctx| learn_under_test(&case.sc, ctx));
+        let (got, info) = run_env(&case.env, |ctx| learn_under_test(&case.sc, case.second.as_ref(), ctx));
         stats.execution(&case.env, &info);
         stats.operations += 2;
         if let Some(d) = divergence(&case.env, &info) {
@@ -196,7 +245,7 @@ impl Property for C04 {
                     no_val.val = None;
                     let mut lenient = case.env.clone();
                     lenient.lenient = true;
-                    let (again, _) = run_env(&lenient, |ctx| learn_under_test(&no_val, ctx));
+                    let (again, _) = run_env(&lenient, |ctx| learn_under_test(&no_val, case.second.as_ref(), ctx));
                     if again.is_ok() {
                         return Outcome::Degenerate(format!("the per-epoch validation panics: {}", panic_class(&g)));
                     }
@@ -261,19 +310,24 @@ impl Property for C04 {
     }
 
     fn pin(&self, case: &Case) -> Case {
-        let (_, info) = run_env(&case.env, |ctx| learn_under_test(&case.sc, ctx));
-        Case { sc: case.sc.clone(), env: to_replay(&case.env, &info) }
+        let (_, info) = run_env(&case.env, |ctx| learn_under_test(&case.sc, case.second.as_ref(), ctx));
+        Case { sc: case.sc.clone(), env: to_replay(&case.env, &info), second: case.second.clone() }
     }
 
     fn shrink(&self, case: &Case) -> Vec<Case> {
         let mut out = Vec::new();
+        if case.second.is_some() {
+            let mut env = case.env.clone();
+            env.lenient = true;
+            out.push(Case { sc: case.sc.clone(), env, second: None });
+        }
         for e in shrink_env(&case.env) {
-            out.push(Case { sc: case.sc.clone(), env: e });
+            out.push(Case { sc: case.sc.clone(), env: e, second: case.second.clone() });
         }
         for sc in shrink_scenario(&case.sc) {
             let mut env = case.env.clone();
             env.lenient = true;
-            out.push(Case { sc, env });
+            out.push(Case { sc, env, second: case.second.clone() });
         }
         out
     }
@@ -295,6 +349,7 @@ impl Property for C04 {
             "validation_samples": case.sc.val.as_ref().map(|d| d.len()),
             "first_input": case.sc.train.x.first(),
             "first_target": case.sc.train.y.first(),
+            "second_call": case.second.as_ref().map(|s| json!({"N": s.train.len(), "B": s.batch, "E": s.epochs})),
             "env": case.env,
         })
     }
